@@ -12,7 +12,7 @@ from vlib.modules import make_mod, GenError
 from props.c02 import grl_ok
 
 ID = "C12"
-BUDGET = {"quick": 320, "thorough": 4800}
+BUDGET = {"quick": 320, "thorough": 3200}
 CASE_TIMEOUT = {"quick": 300, "thorough": 500}
 RULE = (
     "models from vlib.modelgen extended with unused parameters, unused intermediates, chains of unused "
